@@ -224,6 +224,9 @@ class Loops:
 
     def do_havoc(self, I, frame, spec, names, paths, fields, events, skip_names=()):
         ann = {p: t for p, t in spec.params if t is not None}
+        for p_, n_ in self.aliases(I, spec, frame).items():
+            if p_ in ann:
+                ann[n_] = ann[p_]
         # evaluate mutated paths at the loop head
         for p in paths:
             maybe = False
@@ -290,12 +293,55 @@ class Loops:
             new.append(GhostSeg(name, g))
         return new
 
+    def aliases(self, I, spec, frame):
+        """A loop spec names the locals it speaks about.  When the code was edited so that such a name no longer exists (a renamed
+        accumulator), the spec parameter is bound to THE local that plays the same role, if that is unambiguous: a local of the
+        function that no spec parameter names, that is not a parameter of the function, and whose value has the annotated kind
+        (list for List*, int for Int, ...).  Ambiguity or no candidate: the function leaves the subset as before."""
+        missing = [(p, t) for p, t in spec.params if p not in frame.env]
+        if not missing:
+            return {}
+        fparams = set()
+        if frame.finfo is not None:
+            for fn_ in ast.walk(frame.finfo.node):
+                if isinstance(fn_, (ast.FunctionDef, ast.Lambda)):
+                    a_ = fn_.args
+                    fparams |= {x.arg for x in a_.args + a_.kwonlyargs} | ({a_.vararg.arg} if a_.vararg else set()) | ({a_.kwarg.arg} if a_.kwarg else set())
+        named = {p for p, _ in spec.params}
+        out = {}
+        for p, t in missing:
+            def kind_ok(v):
+                v = I.unwrap(v) if not isinstance(v, VNone) else v
+                if t is None:
+                    return True
+                if t.name.startswith('List') or t.name in ('ByteArray',):
+                    return I.is_list(v)
+                if t.name in ('Int', 'Nat'):
+                    return isinstance(v, VInt)
+                if t.name == 'Bool':
+                    return isinstance(v, VBool)
+                if t.name in ('Str', 'Bytes', 'Latin1'):
+                    return isinstance(v, VSeq)
+                return True
+            cands = [n for n, v in frame.env.items() if n not in named and n not in fparams and not n.startswith('$') and n not in out.values() and kind_ok(v)]
+            if len(cands) != 1:
+                return {}
+            out[p] = cands[0]
+            self.ctx.notes.append('loop spec parameter %s bound to the local %s (the name %s no longer exists in %s)'
+                                  % (p, cands[0], p, frame.finfo.qualname if frame.finfo else '?')) \
+                if ('loop spec parameter %s bound to the local %s (the name %s no longer exists in %s)'
+                    % (p, cands[0], p, frame.finfo.qualname if frame.finfo else '?')) not in self.ctx.notes else None
+        return out
+
     # ---- invariant evaluation ----------------------------------------------------------------------------
     def eval_clauses(self, I, spec, frame, kind, k_val=None, extra=None):
         env = {}
+        alias = self.aliases(I, spec, frame)
         for p, _ in spec.params:
             if p in frame.env:
                 env[p] = frame.env[p]
+            elif p in alias:
+                env[p] = frame.env[alias[p]]
             else:
                 raise Unsupported('loop spec refers to local %s which is not bound at the loop head' % p)
         if extra:
